@@ -27,7 +27,8 @@ META = {
                   'activate => NoSuch..., no call, node unchanged, nothing subscribed) + undescribed_module_unreachable, '
                   'describe_stable (any history), emits_importable / emits_importable_history (updates emitted by change AND read, '
                   'along any history) and described_datainfo_equiv relative to the stated datatype-oracle laws, '
-                  'class_props_derived (interface class = highest SECoP base class of the class chain, features = direct Feature '
+                  'cache_valid + read_reply_importable (the cache only ever holds values the datatype produced, whatever module code '
+                  'assigns; read replies and snapshots are importable), class_props_derived (interface class = highest SECoP base class of the class chain, features = direct Feature '
                   'mixins; derived by the model from the MRO given as data).  Tied to secnode.py / params.py / dispatcher.py by a correspondence run (model report '
                   '= real report) and report-vs-behaviour monitors on generated nodes and on the shipped configurations.',
     'level_note': 'Trusted: Lean kernel + axioms; the order test of a LimitsType pair is classified with the limit checks (not '
